@@ -270,7 +270,7 @@ V("c20-simplify-up-returns-accept", "C20", "R20.5", "dask_array/_shuffle.py",
 V("c20-map-blocks-aligned", "C20", "R20.6", "dask_array/_map_blocks.py",
   "            concatenate=needs_concatenate,\n            align_arrays=False,\n            adjust_chunks=dict(zip(out_ind, out.chunks)),", "            concatenate=needs_concatenate,\n            adjust_chunks=dict(zip(out_ind, out.chunks)),", expect="map_blocks")
 V("c20-grid-sensitivity-always-false", "C20", "R20.6", "dask_array/_blockwise.py",
-  "        if not self.align_arrays:\n            return True\n        # An explicit per-block ``adjust_chunks`` tuple has one entry per input\n        # block, so it observes the input's grid as well.\n        adjust_chunks = self.operand(\"adjust_chunks\") or {}\n        return any(isinstance(v, (tuple, list)) for v in adjust_chunks.values())\n", "        return False\n", expect="Blockwise._requires_grid_preservation")
+  "        if any(isinstance(v, (tuple, list)) for v in adjust_chunks.values()):\n            return True\n        return type(self) is Blockwise and not self.align_arrays\n", "        return False\n", expect="Blockwise._requires_grid_preservation")
 V("c20-twin-comment", "C20", "-", "dask_array/_map_blocks.py",
   "    arrs = [a for a in args if isinstance(a, Array)]\n\n    def get_argpair(a):", "    arrs = [a for a in args if isinstance(a, Array)]  # after the freeze\n\n    def get_argpair(a):", twin=True)
 
@@ -1035,12 +1035,14 @@ V("c04-twin-grid-sensitivity-declared-in-mixin", "C04", "-", "dask_array/routine
 V("c12-shuffle-identity-shortcut-endpoints-only", "C12", "R12.5", "dask_array/_shuffle.py",
   "            if len(idx) != c or any(actual != expected for actual, expected in zip(idx, range(ctr, ctr + c))):", "            if len(idx) != c or (c and (idx[0] != ctr or idx[-1] != ctr + c - 1)):", expect="_shuffle")
 V("c20-blockwise-tuple-adjust-chunks-not-grid-sensitive", "C20", "R20.6", "dask_array/_blockwise.py",
-  "        adjust_chunks = self.operand(\"adjust_chunks\") or {}\n        return any(isinstance(v, (tuple, list)) for v in adjust_chunks.values())\n", "        return False\n", expect="per-block adjust_chunks tuple")
+  "        if any(isinstance(v, (tuple, list)) for v in adjust_chunks.values()):\n            return True\n", "", expect="per-block adjust_chunks tuple")
 V("c20-blockwise-unaligned-not-grid-sensitive", "C20", "R20.6", "dask_array/_blockwise.py",
-  "        if not self.align_arrays:\n            return True\n        # An explicit per-block", "        # An explicit per-block", expect="_requires_grid_preservation")
+  "        return type(self) is Blockwise and not self.align_arrays\n", "        return False\n", expect="_requires_grid_preservation")
+V("c20-tuple-clause-confined-to-plain-blockwise", "C20", "R20.6", "dask_array/_blockwise.py",
+  "        if any(isinstance(v, (tuple, list)) for v in adjust_chunks.values()):\n            return True\n", "        if type(self) is Blockwise and any(isinstance(v, (tuple, list)) for v in adjust_chunks.values()):\n            return True\n", expect="subclasses")
 V("c20-twin-blockwise-grid-sensitivity-one-expression", "C20", "-", "dask_array/_blockwise.py",
-  "        if type(self) is not Blockwise:\n            return False\n        if not self.align_arrays:\n            return True\n        # An explicit per-block ``adjust_chunks`` tuple has one entry per input\n        # block, so it observes the input's grid as well.\n        adjust_chunks = self.operand(\"adjust_chunks\") or {}\n        return any(isinstance(v, (tuple, list)) for v in adjust_chunks.values())\n",
-  "        per_block = any(isinstance(v, (tuple, list)) for v in (self.operand(\"adjust_chunks\") or {}).values())\n        return type(self) is Blockwise and (not self.align_arrays or per_block)\n", twin=True)
+  "        adjust_chunks = getattr(self, \"adjust_chunks\", None) or {}\n        if any(isinstance(v, (tuple, list)) for v in adjust_chunks.values()):\n            return True\n        return type(self) is Blockwise and not self.align_arrays\n",
+  "        per_block = any(isinstance(v, (tuple, list)) for v in (getattr(self, \"adjust_chunks\", None) or {}).values())\n        return per_block or (type(self) is Blockwise and not self.align_arrays)\n", twin=True)
 V("c04-map-overlap-not-grid-sensitive", "C04", "R04.12", "dask_array/_overlap.py",
   "        return len(self.arrays) > 1\n", "        return False\n", expect="MapOverlap")
 V("c04-chunks-override-not-grid-sensitive", "C04", "R04.12", "dask_array/_expr.py",
